@@ -1,5 +1,6 @@
 import OxiVerif.Base.Driver
 import OxiVerif.Model.C03
+import OxiVerif.Spec.C03File
 /-!
 Driver for C03 (builder b0320).  Requests (see harness/src/bin/c03/main.rs):
   `doc <cfg> <program>`   IMPL = FACTS extracted from the real bytes by the strict scanner.
@@ -255,24 +256,6 @@ def fileWF (impl : String) : String :=
 /-! ### function-level requests -/
 def parseEntryTok (t : String) : Option Entry := (parseRun t).map (·.1)
 
-/-- `decodeEntries`: read `n` entries of widths `w` (spec §7.5.8.3) -/
-def readField : Nat → List Nat → Option (Nat × List Nat)
-  | 0, l => some (0, l)
-  | w + 1, b :: l => (readField w l).map fun (v, r) => (b * 256 ^ w + v, r)
-  | _ + 1, [] => none
-
-def decodeEntries (w : Nat × Nat × Nat) : Nat → List Nat → Option (List Entry)
-  | 0, [] => some []
-  | 0, _ :: _ => none
-  | n + 1, l => do
-    let (t, l) ← readField w.1 l
-    let (a, l) ← readField w.2.1 l
-    let (b, l) ← readField w.2.2 l
-    let e ← (if t = 0 then some (Entry.free a b) else if t = 1 then some (Entry.inUse a b)
-             else if t = 2 then some (Entry.compressed a b) else none)
-    let r ← decodeEntries w n l
-    pure (e :: r)
-
 def handleXrefEnc (spec impl : String) : String × String :=
   match parseList parseEntryTok "," spec with
   | none => ("bad-request", "na")
@@ -297,22 +280,6 @@ def parseMember (t : String) : Option (Nat × List Nat) :=
     | some a, some b => some (a, b)
     | _, _ => none
   | _ => none
-
-/-- spec-side reading of an object stream's index: `n` pairs of unsigned integers -/
-def readUInt : List Nat → Option (Nat × List Nat)
-  | l =>
-    let ds := l.takeWhile (fun c => 48 ≤ c ∧ c ≤ 57)
-    if ds.isEmpty then none else some (ds.foldl (fun a c => a * 10 + (c - 48)) 0, l.drop ds.length)
-
-def readPairs : Nat → List Nat → Option (List (Nat × Nat))
-  | 0, _ => some []
-  | n + 1, l => do
-    let (a, l) ← readUInt l
-    let l ← (match l with | 32 :: r => some r | _ => none)
-    let (b, l) ← readUInt l
-    let l ← (match l with | 32 :: r => some r | _ => none)
-    let r ← readPairs n l
-    pure ((a, b) :: r)
 
 def handleObjStm (spec impl : String) : String × String :=
   match parseList parseMember "," spec with
